@@ -299,9 +299,10 @@ class SigState:
             self.kill(self.o(a[0]))
             self.own[a[0]] = []
         elif o == "HA":
-            self.kill(self.o(a[0]))
-            self.own[a[0]] = self.o(a[1])
-            self.own[a[1]] = []
+            if a[0] != a[1]:
+                self.kill(self.o(a[0]))
+                self.own[a[0]] = self.o(a[1])
+                self.own[a[1]] = []
         elif o == "HW":
             self.own[a[0]], self.own[a[1]] = self.o(a[1]), self.o(a[0])
         elif o == "KP":
@@ -347,8 +348,8 @@ class SigState:
         cand["SA"] = [f"SA {k} {k2}" for k in ls for k2 in ls if self.fam[k] == self.fam[k2]]
         cand["SD"] = [f"SD {k}" for k in ls]
         cand["call"] = [(f"call {k} {rb(50)} {rb(50)}" if self.fam[k] in "SP" else f"vcall {k} {rb(50)}") for k in ls]
-        cand["HA"] = [f"HA {a} {b}" for b in full_h for a in (full_h + empty_h) if a != b]
-        cand["HW"] = [f"HW {a} {b}" for a in full_h for b in (full_h + empty_h) if a != b]
+        cand["HA"] = [f"HA {a} {b}" for b in full_h for a in (full_h + empty_h)]          # a == b: self-move-assignment
+        cand["HW"] = [f"HW {a} {b}" for a in full_h for b in (full_h + empty_h)]          # a == b: self-swap
         cand["KP"] = [f"KP {c} {h}" for c in range(n_conts) for h in full_h]
         cand["KO"] = [f"KO {c} {h}" for c in range(n_conts) if self.o(16 + c) for h in empty_h]
         cand["KE"] = [f"KE {c} {i}" for c in range(n_conts) for i in range(len(self.o(16 + c)))]
@@ -439,6 +440,22 @@ def enum_sig_small(depth, only=None):
     return out
 
 
+def enum_self_disconnect():
+    """the one thing a callback may not do: let go of the connection it is running from.  The library reads the destroyed hook in
+    `++it` (AddressSanitizer: heap-use-after-free in iterator::increment), the model faults at the same read (`fault:oob`).  One
+    history per instantiation and per kind of owner; the call is the last line of its history (the harness process dies there)."""
+    out = []
+    for fm in FAMS:
+        u = fm in "SV"
+        new = f"{fm}N 0 1" if fm in "SP" else f"{fm}N 0"
+        c0 = f"{fm}C 0 0 1 0" if u else f"{fm}C 0 0 1"
+        c1 = f"{fm}C 1 0 2 1" if u else f"{fm}C 1 0 2"
+        call = "rcall 0 1 2" if fm in "SP" else "rvcall 0 2"
+        out.append([new, c0, c1, "AR 1 0", call])                 # first connection, held by a holder
+        out.append([new, c0, c1, "KP 0 1", "AK 2 0", call])       # last connection, held by a container
+    return out
+
+
 def enum_reentrant():
     """a signal with three connections (two held by holders, one by a container) and a second signal of the same kind with one;
     every pair of (callback, effect) x (callback, effect) where an effect is: let go of any owner, connect into a free or a taken
@@ -502,6 +519,9 @@ class ItState:
             self.slots[int(t[1])] = self.st.next(self.slots[int(t[1])])
         elif o in ("I-", "Im"):
             self.slots[int(t[1])] = self.st.prev(self.slots[int(t[1])])
+        elif o == "IS":
+            i, j = int(t[1]), int(t[2])
+            self.slots[i], self.slots[j] = self.slots[j], self.slots[i]
         elif o in ("I=", "I*"):
             pass
         else:
@@ -544,6 +564,11 @@ def iter_probes(g):
         for j in ss:
             if (i in CONST_SLOTS) == (j in CONST_SLOTS) and i <= j:
                 ops.append(f"I= {i} {j}")
+    # swap every comparable pair (and every slot with itself), and back
+    for i in ss:
+        for j in ss:
+            if (i in CONST_SLOTS) == (j in CONST_SLOTS) and i <= j:
+                ops += [f"IS {i} {j}", f"IS {j} {i}"]
     if 7 in g.slots or any(n != "null" for n in g.slots.values()):
         ops.append("IX 7")
     return ops
@@ -576,7 +601,7 @@ def enum_iter_small(depth):
     return out
 
 
-ITER_KINDS = ["IB", "IE", "CB", "CE", "IP", "CP", "IN", "CN", "IC", "IX", "I+", "I-", "Ip", "Im", "I=", "I*"]
+ITER_KINDS = ["IB", "IE", "CB", "CE", "IP", "CP", "IN", "CN", "IC", "IX", "I+", "I-", "Ip", "Im", "I=", "I*", "IS"]
 
 
 def gen_iter_history(rng, length):
@@ -625,12 +650,12 @@ def gen_iter_history(rng, length):
                 if not pos:
                     continue
                 op = f"{k} {rng.choice(pos)}"
-            elif k == "I=":
+            elif k in ("I=", "IS"):
                 pairs = [(a, b) for a in live for b in live if const[a] == const[b]]
                 if not pairs:
                     continue
                 a, b = rng.choice(pairs)
-                op = f"I= {a} {b}"
+                op = f"{k} {a} {b}"
             else:
                 de = [j for j in pos if g.slots[j][0] == "e"]
                 if not de:
@@ -689,7 +714,7 @@ def enum_small(depth, max_lists=3, max_elems=4, only=None):
     return out
 
 
-SIG_DEEP = [1, 4, 6]
+SIG_DEEP = [0, 1, 3, 5, 6, 8]
 DEEP_SCENARIOS = [0, 1, 2, 3, 5, 6]     # depth 4 in the thorough tier (the others would be > 4M lines each)
 
 
@@ -726,7 +751,7 @@ def batches(rng, tier):
     n, ln = (15000, 50) if thorough else (2000, 30)
     hs = [gen_list_history(r, r.range(ln // 2, ln)) for _ in range(n)]
     yield Batch("lists-random", flat(hs), kind="history", note=f"{n} random histories of length {ln // 2}..{ln}; kinds weighted {LIST_WEIGHTS}")
-    idepth = 2 if thorough else 1
+    idepth = 2
     its = enum_iter_small(idepth)
     yield Batch("iterators-small-scope", flat(its), kind="history", exhaustive=True,
                 note=f"after each of {len(scenarios())} start scenarios: iterators at every kind of position (begin/end, const/non-const, by element "
@@ -751,6 +776,10 @@ def batches(rng, tier):
     yield Batch("signals-reentrant", flat(re), kind="history", exhaustive=True,
                 note=f"calls whose callbacks let go of connections / connect new ones while the signal is being called: every single effect and every "
                      f"pair of effects on a signal with three connections, all four instantiations; {len(re)} histories")
+    sd = enum_self_disconnect()
+    yield Batch("signals-self-disconnect", flat(sd), kind="history", exhaustive=True,
+                note=f"a callback that lets go of its own connection (undefined behaviour of the caller): the harness dies with heap-use-after-free in "
+                     f"iterator::increment exactly where the model faults; {len(sd)} histories, each ends in a deliberate sanitizer death")
     r = rng.fork("signals")
     n, ln = (10000, 50) if thorough else (1500, 30)
     hs = [gen_sig_history(r, r.range(ln // 2, ln)) for _ in range(n)]
@@ -762,6 +791,9 @@ def batches(rng, tier):
 def equivalent(op, impl, model):
     """the driver appends the verdict of the spec judge; it must not be BAD and the rest must be identical"""
     core, sep, verdict = model.partition(" #spec=")
+    if model == "fault:oob" and op.split()[0] in ("rcall", "rvcall"):
+        # a callback let go of its own connection: the real loop reads the destroyed hook in ++it
+        return impl.startswith("CRASH(") and "heap-use-after-free" in impl and "iterator" in impl and "increment" in impl
     return core == impl and verdict != "BAD"
 
 
